@@ -108,3 +108,31 @@ pub proof fn lemma_cell_unique<A: Ord>(g: Grid<A>, i1: Seq<usize>, i2: Seq<usize
     }
     assert(i1 =~= i2);
 }
+
+// ---- the 2-D observation matrix of `HistogramExt::histogram` (A-ND): one observation per row ---------------------
+#[verifier::external_body]
+#[verifier::reject_recursive_types(A)]
+pub struct ObsMatrix<A> { _a: core::marker::PhantomData<A> }
+pub struct AxisIter<A> { pub rows: Vec<Lane<A>> }
+impl<A> ObsMatrix<A> {
+    // the rows in index order
+    pub uninterp spec fn rows(&self) -> Seq<Seq<A>>;
+    pub uninterp spec fn ncols(&self) -> nat;
+    // `axis_iter(Axis(0))` yields every row once, in index order, as a 1-D view of ncols elements
+    #[verifier::external_body]
+    pub fn axis_iter(&self, axis: Axis) -> (r: AxisIter<A>)
+        requires axis.0 == 0
+        ensures r.rows@.len() == self.rows().len(), forall|k: int| 0 <= k < self.rows().len() ==> (#[trigger] r.rows@[k])@ == self.rows()[k],
+            forall|k: int| 0 <= k < self.rows().len() ==> (#[trigger] self.rows()[k]).len() == self.ncols()
+    { unimplemented!() }
+}
+// R10h
+#[verifier::external_body]
+pub fn verif_hoist<A>(it: AxisIter<A>) -> (r: Vec<Lane<A>>)
+    ensures r@ == it.rows@
+{ unimplemented!() }
+// a count never exceeds the number of observations
+pub proof fn lemma_count_bound<A: Ord>(g: Grid<A>, hist: Seq<Seq<A>>, idx: Seq<usize>)
+    ensures 0 <= count_in(g, hist, idx) <= hist.len()
+    decreases hist.len()
+{ if hist.len() > 0 { lemma_count_bound(g, hist.drop_last(), idx); } }
